@@ -2,7 +2,7 @@
    Statements only; proofs are in Proofs/ValidateOverlap.v and Proofs/ValidateRules.v. *)
 From Coq Require Import List NArith ZArith String Bool.
 From GQL Require Import Exec.Syntax Validate.VSyntax Validate.Overlap Validate.OverlapSpec Validate.Rules
-     Exec.Exec Proofs.ValidateOverlap Proofs.ValidateRules Proofs.ValidateMerge Proofs.ValidateMemo Proofs.ValidateInputFields Proofs.ValidateArgs Proofs.ValidateCycles.
+     Exec.Exec Proofs.ValidateOverlap Proofs.ValidateRules Proofs.ValidateMerge Proofs.ValidateMemo Proofs.ValidateInputFields Proofs.ValidateArgs Proofs.ValidateCycles Proofs.ValidateUnused.
 Import ListNotations.
 Open Scope string_scope.
 
@@ -223,6 +223,14 @@ Theorem C02_rule_sound_no_fragment_cycles_partial : forall W,
   rule_no_fragment_cycles W <> [] -> Violates_no_fragment_cycles W.
 Proof. exact no_fragment_cycles_sound. Qed.
 Print Assumptions C02_rule_sound_no_fragment_cycles_partial.
+
+(* NoUnusedFragments, one direction (partial): a fragment definition that no operation
+   reaches through spreads is reported.  Missing: a reported fragment is unreachable (the
+   closure iteration of the model is complete), checked by the differential only. *)
+Theorem C02_rule_complete_no_unused_fragments_partial : forall W,
+  Violates_no_unused_fragments W -> rule_no_unused_fragments W <> [].
+Proof. exact no_unused_fragments_complete. Qed.
+Print Assumptions C02_rule_complete_no_unused_fragments_partial.
 
 (* ---- non-vacuity ---- *)
 Definition exS : schema :=
